@@ -53,6 +53,30 @@ Theorem C09_invalid_answer_reported : forall s tt sid v,
 Proof. exact (fun s tt sid v => conj (not_a_circuit_invalid tt v) (not_a_circuit_reported s sid v)). Qed.
 Print Assumptions C09_invalid_answer_reported.
 
+(* a LATE answer (Deferred or coroutine, fired by OFire) is judged against the circuits known when it ARRIVES, in
+   every reachable state: circuits created and BUILT since the consultation count, circuits closed since do not *)
+Theorem C09_late_answer_judged_at_answer_time : forall ops n p,
+  let s := snd (run_from st0 ops) in
+  nth_error (pends s) n = Some p -> p_fired p = false -> lookup 9000 (circs s) = None ->
+  op_fire s n =
+    realise (with_pends s (set_nth n {| p_sid := p_sid p; p_kind := p_kind p; p_fired := true |} (pends s)))
+            (p_sid p) (decide_now s (p_kind p)).
+Proof. exact late_answer_current. Qed.
+Print Assumptions C09_late_answer_judged_at_answer_time.
+
+(* concrete: built between consultation and answer -> ATTACHSTREAM 7 4; closed in between -> reported, nothing *)
+Theorem C09_circuit_built_meanwhile :
+  wf w_built_meanwhile = true /\ oracle w_built_meanwhile (run w_built_meanwhile) = true /\
+  all_writes (run w_built_meanwhile) = [leave_line 1; attach_line 7 4].
+Proof. exact built_meanwhile_ok. Qed.
+Print Assumptions C09_circuit_built_meanwhile.
+
+Theorem C09_circuit_closed_meanwhile :
+  wf w_closed_meanwhile = true /\ oracle w_closed_meanwhile (run w_closed_meanwhile) = true /\
+  all_writes (run w_closed_meanwhile) = [leave_line 1] /\ n_reported (List.concat (run w_closed_meanwhile)) = 1%nat.
+Proof. exact closed_meanwhile_ok. Qed.
+Print Assumptions C09_circuit_closed_meanwhile.
+
 Theorem C09_decision_is_spec_decide : forall s tt a, incs tt = map inc_of (objs s) -> decide tt a = decide_now s a.
 Proof. exact decide_now_spec. Qed.
 Print Assumptions C09_decision_is_spec_decide.
